@@ -1,0 +1,19 @@
+//go:build verif
+
+package edit
+
+import "src.elv.sh/pkg/cli/tk"
+
+// VerifIsSyntaxComplete exposes the decision the Enter key uses to choose
+// between inserting a newline and submitting the code.
+func VerifIsSyntaxComplete(code string) bool { return isSyntaxComplete(code) }
+
+// VerifBufferBuiltins exposes the pure buffer-editing commands (the
+// implementations behind edit:move-dot-left, edit:kill-word-left, ...).
+func VerifBufferBuiltins() map[string]func(*tk.CodeBuffer) {
+	m := make(map[string]func(*tk.CodeBuffer), len(bufferBuiltinsData))
+	for k, v := range bufferBuiltinsData {
+		m[k] = v
+	}
+	return m
+}
